@@ -2,6 +2,7 @@
 import ast
 
 from ..model import (AnalysisError, FUNC_TYPES, U, call_attr, call_name, dotted, enclosing, guard_texts, short, walk_body, ancestors, parent)
+from ..absint import unroll_literal_loops
 from ..util import params, find_calls, trace, stmt_of, has_exit, syn_dominates
 from . import c02, c04
 
@@ -136,6 +137,19 @@ def r3_ignore_wiring(cx):
             from ..model import _flatten_atom
             _flatten_atom(t, True, atoms)
         at = set((U(e), p_) for e, p_ in atoms)
+        # a predicate helper that answers issubclass(x, ExecutionContext) (False when issubclass itself raises) stands for that test
+        for t_, p_ in list(at):
+            try:
+                e_ = ast.parse(t_, mode="eval").body
+            except SyntaxError:
+                continue
+            if p_ and isinstance(e_, ast.Call) and isinstance(e_.func, ast.Name) and [U(a_) for a_ in e_.args] == [tv] and s.has(e_.func.id) and isinstance(s.get(e_.func.id), FUNC_TYPES):
+                h_ = s.get(e_.func.id)
+                hp = params(h_)
+                rv = set(U(r_.value) for r_ in ast.walk(h_) if isinstance(r_, ast.Return) and r_.value is not None)
+                if len(hp) == 1 and rv <= set(["issubclass(%s, ExecutionContext)" % hp[0], "False"]) and "issubclass(%s, ExecutionContext)" % hp[0] in rv:
+                    at.discard((t_, p_))
+                    at.add(("issubclass(%s, ExecutionContext)" % tv, True))
         extra = at - set([("issubclass(%s, ExecutionContext)" % tv, True), ("inspect.isclass(%s)" % tv, True), ("isinstance(%s, type)" % tv, True)])
         rets = [r for r in walk_body(gc.body) if isinstance(r, ast.Return)]
         ok = U(comps[0].elt) == tv and ("issubclass(%s, ExecutionContext)" % tv, True) in at and not extra and len(rets) == 1 and any(x is comps[0] for x in ast.walk(rets[0]))
@@ -207,10 +221,32 @@ def r6_flag_propagation(cx):
     init = sf.func("RegistryPoint.__init__", "C05.R6")
     flags = [p for p in params(init) if p not in FLAGS_IGNORED]
     rr = sf.func("_resolve_registry_points", "C05.R6")
+    # view: a loop over a (module-level) tuple of flag names with getattr/setattr is the unrolled sequence of attribute assignments
+    unroll_literal_loops(rr, consts=sf.top)
     copied = {}
-    for a in walk_body(rr.body):
-        if isinstance(a, ast.Assign) and isinstance(a.value, ast.Attribute) and U(a.value.value) == "point":
-            copied[a.value.attr] = set(U(t) for t in a.targets)
+    env = {}        # temporary -> the point attribute it currently holds
+
+    def scan(stmts):
+        for a in stmts:
+            if isinstance(a, ast.Assign):
+                src = None
+                if isinstance(a.value, ast.Attribute) and U(a.value.value) == "point":
+                    src = a.value.attr
+                elif isinstance(a.value, ast.Name) and a.value.id in env:
+                    src = env[a.value.id]
+                for t in a.targets:
+                    if isinstance(t, ast.Name):
+                        if src is not None:
+                            env[t.id] = src
+                        else:
+                            env.pop(t.id, None)
+                    elif src is not None and isinstance(t, ast.Attribute):
+                        copied.setdefault(src, set()).add(U(t))
+            for fld in ("body", "orelse", "finalbody"):
+                sub = getattr(a, fld, None)
+                if isinstance(sub, list) and not isinstance(a, FUNC_TYPES):
+                    scan(sub)
+    scan(rr.body)
     for f in flags:
         if f not in copied:
             cx.bad(rr, "flag '%s' of RegistryPoint is copied from the point to its implementations" % f, construct="(no '... = point.%s')" % f)
